@@ -104,6 +104,7 @@ J conc_to_json(const ConcCase& c) {
   k.set("factory_reenters", c.factory_reenters);
   k.set("nslots", c.nslots);
   k.set("step_cap", c.sched.step_cap);
+  if (c.sched.exit_at_step >= 0) k.set("exit_at_step", c.sched.exit_at_step);
   j.set("knobs", k);
   J s = J::arr();
   for (int v : c.sched.schedule) s.push(v);
@@ -141,6 +142,7 @@ bool conc_from_json(const J& j, ConcCase* c) {
   c->sched.pct_len = static_cast<int>(k.geti("pct_len", 200));
   c->sched.disabled_kinds = static_cast<uint32_t>(k.geti("disabled_kinds"));
   c->sched.step_cap = static_cast<int>(k.geti("step_cap", 200000));
+  c->sched.exit_at_step = static_cast<int>(k.geti("exit_at_step", -1));
   c->factory_yields = static_cast<int>(k.geti("factory_yields", 1));
   c->factory_reenters = static_cast<int>(k.geti("factory_reenters", 0));
   c->nslots = static_cast<int>(k.geti("nslots", 4));
@@ -221,7 +223,7 @@ ConcCase gen_conc(const std::string& property, const std::string& tier, uint64_t
     c.factory_yields = 0;
     return c;
   }
-  if (tier == "cold") {
+  if (tier == "cold" || tier == "exit") {
     // First-ever calls into the library, racing: every run of this part is the only execution of its
     // process, so function-local statics, lazily created singletons and the empty cache are all cold.
     ConcCase c;
@@ -277,6 +279,15 @@ ConcCase gen_conc(const std::string& property, const std::string& tier, uint64_t
     gen_sched_knobs(&sc, &c);
     c.sched.disabled_kinds &= ~((1u << Y_ATOMIC_LD) | (1u << Y_ATOMIC_ST) | (1u << Y_ATOMIC_RMW));
     if (c.sched.chooser == CH_STICKY) c.sched.sticky_p = 0.5;
+    if (tier == "exit") {
+      // The process "exits" (its static destructors run) at some step while the threads carry on, as detached
+      // threads do when main() returns.  More repeat loads and queries, so that something is still going on then.
+      for (auto& ops : c.tasks) {
+        size_t n0 = ops.size();
+        for (size_t i = 0; i < n0 && i < 6; ++i) if (ops[i].k == O_LOAD || ops[i].k == O_QUERY || ops[i].k == O_FIXED || ops[i].k == O_LOCAL) ops.push_back(ops[i]);
+      }
+      c.sched.exit_at_step = static_cast<int>(sc.range(3, 150));
+    }
     return c;
   }
   if (tier == "hints") {
@@ -779,7 +790,16 @@ Outcome exec_conc(const ConcCase& c, bool keep_log, Stats* stats) {
     });
   }
   set_phase("tasks");
-  SchedResult sr = run_tasks(bodies, c.sched);
+  // The step cap is a livelock detector, not a budget a differently built (correct) library might exhaust: it grows with
+  // the script (a crowd of 520 tasks with 1 800 ops needs ~10^5 steps on this tree, more with one more atomic per call).
+  SchedConfig sched = c.sched;
+  {
+    int64_t nops = 0;
+    for (const auto& ops : c.tasks) for (const Op& o : ops) nops += (o.k == O_BULK ? 2 * (o.a + 50) : 1);
+    int64_t cap = std::max<int64_t>(sched.step_cap, 200000 + 3000 * nops);
+    sched.step_cap = static_cast<int>(std::min<int64_t>(cap, 60000000));
+  }
+  SchedResult sr = run_tasks(bodies, sched);
   set_phase("oracle");
   out.trace_hash = sr.trace_hash;
   out.sig_hash = sr.sig_hash;
@@ -1015,6 +1035,8 @@ Outcome exec_conc(const ConcCase& c, bool keep_log, Stats* stats) {
     stats->add("contended_lock_waits", sr.contended_locks);
     if (sr.cond_waits) stats->add("cond_waits", sr.cond_waits);
     if (c.factory_reenters) stats->add("probe.factory_reentered_the_library");
+    if (c.sched.exit_at_step >= 0) { stats->add("probe.simulated_exit_while_tasks_run"); if (sr.exit_handlers_run) stats->add("probe.library_static_destructors_run_at_exit", sr.exit_handlers_run); }
+    if (library_exit_handlers_registered()) stats->add("probe.library_static_destructors_pending", library_exit_handlers_registered());
     if (unjudged_deadlock) stats->add("probe.reentrant_factory_deadlock_left_unjudged");
     { int64_t n = 0; for (const LoadRec& lr : x.loads) n += lr.threw; if (n) stats->add("probe.load_exited_by_exception", n); }
     if (sr.tls_blocks) stats->add("probe.thread_local_instances_created", sr.tls_blocks);
